@@ -3,6 +3,7 @@ package props
 import (
 	"net/http"
 	"strconv"
+	"strings"
 	"testing"
 
 	"pgregory.net/rapid"
@@ -56,7 +57,60 @@ func d13(c RoutingCase, req model.ReqSpec, a, b harness.Outcome) bool {
 	if fa.Shape() == fb.Shape() {
 		return false // same literal/variable skeleton: both routers rank these alike (by path string, then registration order)
 	}
-	return !model.RouteRefines(fa, fb) && !model.RouteRefines(fb, fa)
+	if model.RouteRefines(fa, fb) || model.RouteRefines(fb, fa) {
+		return false
+	}
+	// The finding is that the two routers rank by different keys, each by the ones it documents:
+	// CurlyRouter by the number of literal segments of the full path, then the number of
+	// variables, then the path string; RouterJSR311 (JSR 311, 3.7.2) by the number of literal
+	// characters of the route path, then the number of variables, then the path string. A
+	// disagreement those keys do not produce is something else.
+	return rankKeyLess(curlyKey(sb, rb), curlyKey(sa, ra)) && rankKeyLess(jsrKey(ra), jsrKey(rb))
+}
+
+type rankKey struct {
+	a, b int
+	path string
+}
+
+func rankKeyLess(x, y rankKey) bool {
+	if x.a != y.a {
+		return x.a < y.a
+	}
+	if x.b != y.b {
+		return x.b < y.b
+	}
+	return x.path < y.path
+}
+
+// relPathAsWritten is the route path as the builder got it, without leading slashes (two routes
+// of one WebService share everything in front of it).
+func relPathAsWritten(r model.RouteSpec) string {
+	return strings.TrimLeft(harness.RoutePathForm(r.Path, r.PathForm), "/")
+}
+
+func curlyKey(s model.ServiceSpec, r model.RouteSpec) rankKey {
+	k := rankKey{path: relPathAsWritten(r)}
+	for _, sg := range s.Full(r) {
+		if sg.IsVar() {
+			k.b++
+		} else {
+			k.a++
+		}
+	}
+	return k
+}
+
+func jsrKey(r model.RouteSpec) rankKey {
+	k := rankKey{path: relPathAsWritten(r)}
+	for _, sg := range r.Path {
+		if sg.IsVar() {
+			k.b++
+		} else {
+			k.a += len(sg.Lit)
+		}
+	}
+	return k
 }
 
 func checkC18(c RoutingCase) (vs []*Violation) {
